@@ -494,3 +494,281 @@ Proof.
   - rewrite M, V. exact Hd2.
   - exists d', s', te. split; [exact E'|]. split; [exact V'|]. split; [|exact Hc]. rewrite Er', Er, <- !app_assoc. reflexivity.
 Qed.
+
+Lemma denote_cmd_errs_data c v v1 e1 : denote_cmd2 c v = Some (v1, e1) -> forall x, In x e1 -> x <> E_EOF.
+Proof.
+  intros H x Hx. destruct c as [n f vv|n vv|typ [key|] fields]; cbn [denote_cmd2] in H; try discriminate; try (injection H as <- <-; contradiction).
+  assert (Hi : denote_items2 [] [([], IEntry true [] typ [] [] key [] true [] false [])] v = Some (v, [] ++ [])
+               \/ True) by (right; exact I).
+  destruct (denote_fields fields [] [] []) as [[[fs ps] ef]|] eqn:Ef; [|discriminate].
+  assert (Hf : forall c, In c ef -> c <> E_EOF).
+  { clear -Ef. revert Ef. generalize (@nil str). generalize (@nil (str * str)) at 1. generalize (@nil (str * list person)) at 1. revert fs ps ef.
+    induction fields as [|[fn pa] rest IHf]; intros fs ps ef ps0 fs0 seen Ef c Hc; cbn [denote_fields] in Ef.
+    - injection Ef as <- <- <-. contradiction.
+    - destruct (existsb (str_eqb (lower fn)) seen).
+      + destruct (denote_fields rest seen fs0 ps0) as [[[f2 p2] e2]|] eqn:E; [|discriminate]. injection Ef as <- <- <-.
+        destruct Hc as [<-|Hc]; [discriminate|exact (IHf _ _ _ _ _ _ E c Hc)].
+      + destruct (is_person_field (lower fn)); [|exact (IHf _ _ _ _ _ _ Ef c Hc)].
+        destruct (split_name_list _) as [names|? ?| |]; try discriminate.
+        destruct (denote_persons names []) as [[pl e1']|] eqn:Ep; [|discriminate].
+        destruct (denote_fields rest _ fs0 _) as [[[f2 p2] e2]|] eqn:E; [|discriminate]. injection Ef as <- <- <-.
+        apply in_app_or in Hc as [Hc|Hc]; [|exact (IHf _ _ _ _ _ _ E c Hc)].
+        clear -Ep Hc. revert Ep Hc. generalize (@nil person). revert pl e1'.
+        induction names as [|nm nr IHn]; intros pl e1' acc Ep Hc; cbn [denote_persons] in Ep.
+        * injection Ep as <- <-. contradiction.
+        * destruct (person_of_string nm) as [[pp rep]|? ?| |]; try discriminate.
+          destruct (denote_persons nr (acc ++ [pp])) as [[pl' e']|] eqn:E; [|discriminate]. injection Ep as <- <-.
+          apply in_app_or in Hc as [Hc|Hc]; [destruct rep; [destruct Hc as [<-|[]]; discriminate|contradiction]|exact (IHn _ _ _ E Hc)]. }
+  destruct (existsb _ (fst v)); injection H as <- <-.
+  - apply in_app_or in Hx as [Hx|[<-|[]]]; [exact (Hf x Hx)|discriminate].
+  - exact (Hf x Hx).
+Qed.
+
+(* generic: a damaged command B after a well-formed file, on which parse_command returns a
+   (partial) entry after reporting one 'token required' problem, standing at cx :: r *)
+Lemma class_ret_untouched items junk (B : str) cx r typ key (fields : list (str * list str)) v e v1 e1 :
+  wf_file month_macros items -> no_at junk -> no_at r -> (cx =? c_at) = false -> (2 <= length B)%nat ->
+  (forall s1, sc_rest (p_sc s1) = B -> p_macros s1 = final_macros month_macros items ->
+     exists st2 te, parse_command Capture s1 = Ret (Some (CEntry typ (Some key) fields)) st2 /\ sc_rest (p_sc st2) = cx :: r
+                    /\ p_errs st2 = p_errs s1 ++ [te] /\ e_cls te = E_TOKEN /\ p_macros st2 = p_macros s1) ->
+  denote_items2 month_macros items ([], []) = Some (v, e) ->
+  denote_cmd2 (CEntry typ (Some key) fields) v = Some (v1, e1) ->
+  exists d s te, parse_bib Capture (file_text2 items (junk ++ c_at :: B)) = Ret d s
+    /\ untouched s /\ view d = v1 /\ p_macros s = final_macros month_macros items
+    /\ p_errs s = map data_err e ++ [te] ++ map data_err e1 /\ e_cls te = E_TOKEN.
+Proof.
+  intros Hwf Hj Hr HX3 HB Hcmd Hd Hd1. unfold parse_bib.
+  set (b := junk ++ c_at :: B).
+  set (text := file_text2 items b).
+  pose proof (file_text2_lower items b) as Hlen. fold text in Hlen.
+  assert (Hb2 : (3 <= length b)%nat).
+  { unfold b. rewrite app_length. cbn [length]. lia. }
+  replace (S (length text)) with (length items + (S (length text) - length items))%nat by lia.
+  destruct (file_prefix3 items (S (length text) - length items) db_init (pst_init text month_macros) b v e Hwf eq_refl Hd)
+    as (d1 & st1 & E1 & V1 & R1 & Er1 & M1).
+  rewrite E1.
+  destruct (S (length text) - length items)%nat as [|[|fu]] eqn:Ef; [lia|lia|].
+  cbn [bib_loop]. unfold skip_to at 1. rewrite R1. unfold b. rewrite (find_first_app _ junk c_at _ Hj eq_refl).
+  match goal with |- context [parse_command Capture ?s1x] => set (s1 := s1x) end.
+  assert (Hm1 : p_macros s1 = final_macros month_macros items) by (unfold s1; cbn; exact M1).
+  destruct (Hcmd s1 eq_refl Hm1) as (st2 & te & Ep & Hr2 & Her2 & Hte & Hma2).
+  rewrite Ep. rewrite Hm1 in *.
+  destruct (process_denotes2 _ d1 st2 v1 e1 ltac:(rewrite V1; exact Hd1)) as (d2 & Epr & Hv2).
+  rewrite Epr. cbn [obind bib_loop].
+  destruct (add_errs_core st2 (map data_err e1)) as [Hc1 Hc2].
+  unfold skip_to. rewrite Hc1, Hr2.
+  rewrite (find_first_all_false _ (cx :: r)).
+  2:{ intros x [<-|Hx]; [exact HX3|exact (Hr x Hx)]. }
+  exists d2, (add_errs st2 (map data_err e1)), te. split; [reflexivity|].
+  assert (Herr : p_errs (add_errs st2 (map data_err e1)) = map data_err e ++ [te] ++ map data_err e1).
+  { rewrite add_errs_errs, Her2. unfold s1. cbn [p_errs set_cstart set_sc]. rewrite Er1. cbn. rewrite <- !app_assoc. reflexivity. }
+  split; [|split; [exact Hv2|split; [rewrite Hc2; exact Hma2|split; [exact Herr|exact Hte]]]].
+  split; [rewrite Hc1, Hr2; discriminate|].
+  intros x Hx. rewrite Herr in Hx. apply in_app_or in Hx as [Hx|Hx].
+  - pose proof (data_errs_no_eof e x Hx) as Hc. exact (denote_errs_data _ _ _ _ _ Hd _ Hc).
+  - apply in_app_or in Hx as [[<-|[]]|Hx]; [rewrite Hte; discriminate|].
+    pose proof (data_errs_no_eof e1 x Hx) as Hc.
+    exact (denote_cmd_errs_data _ _ _ _ Hd1 _ Hc).
+Qed.
+
+(* ---- (4) a broken field: a field name not followed by '=', or '=' not followed by a value *)
+Inductive broken := BNoEq (wsn name wse : str) (X : char) | BNoVal (wsn name wse wsv : str) (X : char).
+Definition broken_text (b : broken) (r : str) : str :=
+  match b with
+  | BNoEq wsn name wse X => wsn ++ name ++ wse ++ X :: r
+  | BNoVal wsn name wse wsv X => wsn ++ name ++ wse ++ 61 :: wsv ++ X :: r
+  end.
+Definition broken_char (b : broken) : char := match b with BNoEq _ _ _ X => X | BNoVal _ _ _ _ X => X end.
+Definition wf_broken (b : broken) : Prop :=
+  match b with
+  | BNoEq wsn name wse X =>
+    forallb is_space wsn = true /\ forallb is_space wse = true /\ is_name name = true /\
+    is_space X = false /\ X <> 61 /\ is_name_char X = false
+  | BNoVal wsn name wse wsv X =>
+    forallb is_space wsn = true /\ forallb is_space wse = true /\ forallb is_space wsv = true /\ is_name name = true /\
+    is_space X = false /\ X <> c_quote /\ X <> c_lbrace /\ is_name_char X = false
+  end.
+
+Lemma parse_field_broken m st b r : wf_broken b -> sc_rest (p_sc st) = broken_text b r ->
+  exists st' te, parse_field m st = Exc te st' /\ sc_rest (p_sc st') = broken_char b :: r /\ e_cls te = E_TOKEN /\
+    p_errs st' = p_errs st /\ p_fields st' = p_fields st /\ p_key st' = p_key st /\ p_macros st' = p_macros st /\ p_cstart st' = p_cstart st.
+Proof.
+  intros Hwf Hr. unfold parse_field. destruct b as [wsn name wse X|wsn name wse wsv X]; cbn [broken_text broken_char wf_broken] in *.
+  - destruct Hwf as (Hwsn & Hwse & Hname & HX1 & HX2 & HX3).
+    destruct (name_head name Hname) as (c0 & t0 & Hn0 & Hs0 & Hc0).
+    assert (Hf : first_match [P_NAME] (name ++ wse ++ X :: r) = Some (P_NAME, name, wse ++ X :: r)).
+    { cbn [first_match]. rewrite (match_name name _ Hname (head_ok_ws_then wse X r Hwse HX3)). reflexivity. }
+    rewrite Hn0 in Hr, Hf. cbn [app] in Hr, Hf.
+    destruct (optional_after_ws [P_NAME] st wsn c0 _ _ _ _ Hwsn (name_char_not_space c0 Hc0) Hr Hf) as (sc1 & H1 & Hr1).
+    rewrite H1. cbn [obind]. cbv zeta. cbn [snd].
+    match goal with |- context [required [P_LIT 61] ?s2 >>= _] =>
+      destruct (required_none_after_ws [P_LIT 61] s2 wse X r Hwse HX1 Hr1) as (sc2 & E2 & Hr2) end.
+    { cbn [first_match match_pat]. apply N.eqb_neq in HX2. rewrite HX2. reflexivity. }
+    rewrite E2. cbn [obind]. eexists. eexists. split; [reflexivity|]. cbn. repeat split; auto.
+  - destruct Hwf as (Hwsn & Hwse & Hwsv & Hname & HX1 & HX2 & HX3 & HX4).
+    destruct (name_head name Hname) as (c0 & t0 & Hn0 & Hs0 & Hc0).
+    assert (Hf : first_match [P_NAME] (name ++ wse ++ 61 :: wsv ++ X :: r) = Some (P_NAME, name, wse ++ 61 :: wsv ++ X :: r)).
+    { cbn [first_match]. rewrite (match_name name _ Hname (head_ok_ws_then wse 61 _ Hwse eq_refl)). reflexivity. }
+    rewrite Hn0 in Hr, Hf. cbn [app] in Hr, Hf.
+    destruct (optional_after_ws [P_NAME] st wsn c0 _ _ _ _ Hwsn (name_char_not_space c0 Hc0) Hr Hf) as (sc1 & H1 & Hr1).
+    rewrite H1. cbn [obind]. cbv zeta. cbn [snd].
+    match goal with |- context [required [P_LIT 61] ?s2 >>= _] =>
+      destruct (required_after_ws [P_LIT 61] s2 wse 61 _ (P_LIT 61) [61] (wsv ++ X :: r) Hwse eq_refl Hr1 eq_refl) as (sc2 & E2 & Hr2) end.
+    rewrite E2. cbn [obind]. unfold parse_value.
+    match goal with |- context [parse_value_loop (S ?n) m [] ?s3] => remember s3 as s3v eqn:Es3; remember n as fu0 end.
+    cbn [parse_value_loop]. unfold parse_value_part.
+    assert (Hr3 : sc_rest (p_sc s3v) = wsv ++ X :: r) by (subst s3v; exact Hr2).
+    destruct (required_none_after_ws [P_LIT c_quote; P_LIT c_lbrace; P_NUMBER; P_NAME] s3v wsv X r Hwsv HX1 Hr3) as (sc3 & E3 & Hr3').
+    { cbn [first_match match_pat]. apply N.eqb_neq in HX2, HX3. rewrite HX2, HX3.
+      unfold nonempty_span. cbn [span]. rewrite (not_name_char_not_digit X HX4), (name_start_char_false X HX4). reflexivity. }
+    rewrite E3. cbn [obind]. eexists. eexists. split; [reflexivity|]. subst s3v. cbn. repeat split; auto.
+Qed.
+
+Fixpoint fields_pre (fs : list sfield) (tl : str) : str :=
+  match fs with [] => tl | f :: r => render_sfield f ++ c_comma :: fields_pre r tl end.
+
+Lemma fields_loop_broken m : forall fs fuel st b r,
+  (length fs < fuel)%nat -> Forall (wf_sfield (p_macros st)) fs -> wf_broken b ->
+  sc_rest (p_sc st) = fields_pre fs (broken_text b r) ->
+  exists st' te, parse_entry_fields fuel m st = Exc te st' /\ sc_rest (p_sc st') = broken_char b :: r /\ e_cls te = E_TOKEN /\
+    p_fields st' = p_fields st ++ map (field_result (p_macros st)) fs /\
+    p_key st' = p_key st /\ p_errs st' = p_errs st /\ p_macros st' = p_macros st /\ p_cstart st' = p_cstart st.
+Proof.
+  induction fs as [|f r0 IH]; intros fuel st b r Hf Hwf Hb Hr; (destruct fuel as [|fu]; [cbn in Hf; lia|]); cbn [parse_entry_fields].
+  - cbn [fields_pre] in Hr.
+    match goal with |- context [parse_field m ?s0] =>
+      destruct (parse_field_broken m s0 b r Hb Hr) as (st' & te & E & Hr' & Hte & He & Hfs & Hk & Hm & Hc) end.
+    rewrite E. cbn [obind]. exists st', te. cbn in *. rewrite app_nil_r. repeat split; auto.
+  - inversion Hwf as [|? ? Hwf1 Hwfr]; subst. cbn [fields_pre] in Hr.
+    match goal with |- context [parse_field m ?s0] =>
+      destruct (parse_field_reads m s0 f c_comma (fields_pre r0 (broken_text b r)) Hwf1 comma_stop Hr) as (sc1 & H1 & Hr1) end.
+    rewrite H1. cbn [obind p_fname p_value p_fields p_macros set_value set_fname].
+    destruct f as [[[wsn name] wse] parts]. destruct Hwf1 as (_ & _ & _ & Hne & _).
+    destruct parts as [|p0 ps]; [congruence|]. cbn [field_result fst snd map].
+    match goal with |- context [optional [P_LIT c_comma] ?s2] =>
+      destruct (optional_after_ws [P_LIT c_comma] s2 [] c_comma _ (P_LIT c_comma) [c_comma] _ eq_refl eq_refl Hr1 eq_refl) as (sc2 & H2 & Hr2);
+      rewrite H2; cbn [obind];
+      destruct (IH fu (set_sc s2 sc2) b r ltac:(cbn [length] in *; lia) Hwfr Hb Hr2)
+        as (st' & te & H3 & Hr3 & Hte & Hfs & Hk & He & Hm & Hcs)
+    end.
+    rewrite H3. exists st', te. split; [reflexivity|]. split; [exact Hr3|]. split; [exact Hte|]. cbn in Hfs, Hk, He, Hm, Hcs |- *.
+    rewrite Hfs, <- app_assoc. repeat split; auto.
+Qed.
+
+Lemma entry_reads_broken st brace ws0 typ ws1 ws2 key wsk fs (bk : broken) rest :
+  forallb is_space ws0 = true -> forallb is_space ws1 = true -> forallb is_space ws2 = true ->
+  forallb is_space wsk = true ->
+  is_entry_type typ = true -> is_key brace key = true -> Forall (wf_sfield (p_macros st)) fs ->
+  wf_broken bk ->
+  sc_rest (p_sc st) = ws0 ++ typ ++ ws1 ++ op_char brace :: ws2 ++ key ++ wsk ++ c_comma :: fields_pre fs (broken_text bk rest) ->
+  exists st' te, parse_command Capture st = Ret (Some (CEntry typ (Some key) (map (field_result (p_macros st)) fs))) st'
+    /\ sc_rest (p_sc st') = broken_char bk :: rest /\ p_errs st' = p_errs st ++ [te] /\ e_cls te = E_TOKEN /\ p_macros st' = p_macros st.
+Proof.
+  intros H0 H1 H2 Hk Htyp Hkey Hwf Hbk Hr.
+  set (AK := c_comma :: fields_pre fs (broken_text bk rest)) in *.
+  unfold is_entry_type in Htyp. apply andb_prop in Htyp as [Htyp Hp]. apply andb_prop in Htyp as [Htyp Hs].
+  apply andb_prop in Htyp as [Hname Hc]. apply negb_true_iff in Hp, Hs, Hc.
+  destruct (name_head typ Hname) as (t0 & t' & Ht0 & Hts & Htc).
+  unfold parse_command.
+  (* type *)
+  assert (Hf1 : first_match [P_NAME] (typ ++ ws1 ++ op_char brace :: ws2 ++ key ++ wsk ++ AK)
+                = Some (P_NAME, typ, ws1 ++ op_char brace :: ws2 ++ key ++ wsk ++ AK)).
+  { cbn [first_match]. rewrite (match_name typ _ Hname (head_ok_ws_then ws1 (op_char brace) _ H1 ltac:(destruct brace; reflexivity))). reflexivity. }
+  rewrite Ht0 in Hr, Hf1. cbn [app] in Hr, Hf1.
+  match goal with |- context [required [P_NAME] ?s0] =>
+    destruct (required_after_ws [P_NAME] s0 ws0 t0 _ _ _ _ H0 (name_char_not_space t0 Htc) Hr Hf1) as (sc1 & E1 & Hr1) end.
+  rewrite E1. cbn [obind]. cbv zeta. cbn [snd fst].
+  (* opening delimiter *)
+  assert (Hf2 : first_match [P_LIT 40; P_LIT c_lbrace] (op_char brace :: ws2 ++ key ++ wsk ++ AK)
+                = Some (P_LIT (op_char brace), [op_char brace], ws2 ++ key ++ wsk ++ AK))
+    by (destruct brace; reflexivity).
+  match goal with |- context [required [P_LIT 40; P_LIT c_lbrace] ?s1] =>
+    destruct (required_after_ws _ s1 ws1 (op_char brace) _ _ _ _ H1 ltac:(destruct brace; reflexivity) Hr1 Hf2) as (sc2 & E2 & Hr2) end.
+  rewrite E2. cbn [obind fst snd]. rewrite <- Ht0. rewrite Hc, Hs, Hp.
+  assert (Hb : (op_char brace =? c_lbrace) = brace) by (destruct brace; reflexivity). rewrite Hb.
+  (* key *)
+  unfold parse_entry_body.
+  destruct key as [|k0 k']; [discriminate|].
+  assert (Hk0 : is_space k0 = false).
+  { cbn [is_key forallb] in Hkey. apply andb_prop in Hkey as [Hx _]. unfold keyp in Hx.
+    destruct brace; apply negb_true_iff in Hx.
+    - apply orb_false_iff in Hx as [Hx _]. apply orb_false_iff in Hx as [Hx _]. exact Hx.
+    - apply orb_false_iff in Hx as [Hx _]. exact Hx. }
+  assert (Hhead : head_ok (keyp brace) (wsk ++ AK)).
+  { destruct wsk as [|w wsk']; cbn; [destruct brace; reflexivity|].
+    cbn in Hk. apply andb_prop in Hk as [Hw _]. destruct brace; cbn; rewrite Hw; reflexivity. }
+  assert (Hf3 : first_match [if brace then P_KEY_BRACE else P_KEY_PAREN] ((k0 :: k') ++ wsk ++ AK)
+                = Some (if brace then P_KEY_BRACE else P_KEY_PAREN, k0 :: k', wsk ++ AK)).
+  { cbn [first_match]. rewrite (match_key brace (k0 :: k') _ Hkey Hhead). reflexivity. }
+  cbn [app] in Hf3, Hr2.
+  match goal with |- context [required [if brace then P_KEY_BRACE else P_KEY_PAREN] ?s2] =>
+    destruct (required_after_ws _ s2 ws2 k0 _ _ _ _ H2 Hk0 Hr2 Hf3) as (sc3 & E3 & Hr3) end.
+  rewrite E3. cbn [obind snd].
+  match goal with |- context [parse_entry_fields (S ?n) Capture ?s3] => remember s3 as s3v eqn:Es3; remember n as fuel0 eqn:Efu end.
+  assert (Hr3' : sc_rest (p_sc s3v) = wsk ++ c_comma :: fields_pre fs (broken_text bk rest)) by (subst s3v; exact Hr3).
+  cbn [parse_entry_fields]. unfold parse_field.
+  match goal with |- context [optional [P_NAME] ?s] =>
+    destruct (optional_none_after_ws [P_NAME] s wsk c_comma _ Hk eq_refl Hr3' eq_refl) as (sc4 & E4 & Hr4) end.
+  rewrite E4. cbn [obind p_fname set_sc set_value set_fname].
+  match goal with |- context [optional [P_LIT c_comma] ?s] =>
+    destruct (optional_after_ws [P_LIT c_comma] s [] c_comma _ (P_LIT c_comma) [c_comma] _ eq_refl eq_refl Hr4 eq_refl) as (sc5 & E5 & Hr5);
+    rewrite E5; cbn [obind];
+    destruct (fields_loop_broken Capture fs fuel0 (set_sc s sc5) bk rest) as (st6 & te & E6 & Hr6 & Hte & Hfs & Hky & Her & Hma & Hcs)
+  end.
+  { subst fuel0. cbn [p_sc set_key set_sc]. rewrite Hr3. unfold AK. rewrite !app_length. cbn [length].
+    assert (Hl : forall fs' tl, (length fs' <= length (fields_pre fs' tl))%nat).
+    { induction fs' as [|f r IHf]; intros tl; cbn [fields_pre length]; [lia|].
+      rewrite app_length. cbn [length]. specialize (IHf tl). lia. }
+    specialize (Hl fs (broken_text bk rest)). lia. }
+  { subst s3v. cbn. exact Hwf. }
+  { exact Hbk. }
+  { exact Hr5. }
+  rewrite E6. cbn [obind handle_error]. eexists. exists te. split; [|split; [|split; [|split]]].
+  - unfold make_result. cbn [p_key p_fields set_sc add_err]. rewrite Hky, Hfs. subst s3v. cbn. reflexivity.
+  - cbn. exact Hr6.
+  - cbn [p_errs add_err set_sc]. rewrite Her. subst s3v. cbn. reflexivity.
+  - exact Hte.
+  - cbn [p_macros add_err set_sc]. rewrite Hma. subst s3v. cbn. reflexivity.
+Qed.
+
+Lemma broken_text_len b r : (1 <= length (broken_text b r))%nat.
+Proof.
+  destruct b as [wsn name wse X|wsn name wse wsv X]; cbn [broken_text]; repeat (rewrite ?app_length; cbn [length]); lia.
+Qed.
+
+Lemma suffix_confinement_broken_field_lemma items junk brace ws0 typ ws1 ws2 key wsk fs bk r v e v1 e1 items2 tail2 v2 e2 :
+  wf_file month_macros items -> no_at junk -> no_at r -> (broken_char bk =? c_at) = false ->
+  forallb is_space ws0 = true -> forallb is_space ws1 = true -> forallb is_space ws2 = true -> forallb is_space wsk = true ->
+  is_entry_type typ = true -> is_key brace key = true -> Forall (wf_sfield (final_macros month_macros items)) fs ->
+  wf_broken bk ->
+  denote_items2 month_macros items ([], []) = Some (v, e) ->
+  denote_cmd2 (CEntry typ (Some key) (map (field_result (final_macros month_macros items)) fs)) v = Some (v1, e1) ->
+  wf_file (final_macros month_macros items) items2 -> no_at tail2 ->
+  denote_items2 (final_macros month_macros items) items2 v1 = Some (v2, e2) ->
+  exists d' s' te,
+    parse_bib Capture (file_text2 items (junk ++ c_at :: ws0 ++ typ ++ ws1 ++ op_char brace :: ws2 ++ key ++ wsk ++ c_comma :: fields_pre fs (broken_text bk r))
+                       ++ file_text2 items2 tail2) = Ret d' s'
+    /\ view d' = v2 /\ p_errs s' = map data_err e ++ [te] ++ map data_err e1 ++ map data_err e2 /\ e_cls te = E_TOKEN.
+Proof.
+  intros Hwf Hj Hr HX3 H0 H1 H2 Hk Htyp Hkey Hfs Hbk Hd Hd1 Hwf2 Ht2 Hd2.
+  destruct (class_ret_untouched items junk
+              (ws0 ++ typ ++ ws1 ++ op_char brace :: ws2 ++ key ++ wsk ++ c_comma :: fields_pre fs (broken_text bk r))
+              (broken_char bk) r typ key (map (field_result (final_macros month_macros items)) fs) v e v1 e1 Hwf Hj Hr HX3)
+    as (d & s & te & E & Hu & V & M & Er & Hc).
+  - pose proof (broken_text_len bk r). assert (Hl : forall fs' tl, (length tl <= length (fields_pre fs' tl))%nat).
+    { induction fs' as [|f r0 IHf]; intros tl; cbn [fields_pre]; [lia|]. rewrite app_length. cbn [length]. specialize (IHf tl). lia. }
+    specialize (Hl fs (broken_text bk r)). repeat (rewrite ?app_length; cbn [length]). lia.
+  - intros s1 Hs1 Hm1.
+    destruct (entry_reads_broken s1 brace ws0 typ ws1 ws2 key wsk fs bk r H0 H1 H2 Hk Htyp Hkey) as (st2 & te & Ep & Hr2 & Her2 & Hte & Hma2).
+    + rewrite Hm1. exact Hfs.
+    + exact Hbk.
+    + exact Hs1.
+    + exists st2, te. rewrite Hm1 in Ep. auto.
+  - exact Hd.
+  - exact Hd1.
+  - destruct (suffix_confinement_lemma _ d s items2 tail2 v2 e2 E Hu) as (d' & s' & E' & V' & Er').
+    + rewrite M. exact Hwf2.
+    + exact Ht2.
+    + rewrite M, V. exact Hd2.
+    + exists d', s', te. split; [exact E'|]. split; [exact V'|]. split; [|exact Hc]. rewrite Er', Er, <- !app_assoc. reflexivity.
+Qed.
